@@ -34,7 +34,7 @@ import (
 
 var (
 	// packageReplacementRegexp is used to replace package name in a target file
-	packageReplacementRegexp = regexp.MustCompile("package (.+)\n")
+	packageReplacementRegexp = regexp.MustCompile("(?m)^package (.+)\n")
 
 	//go:embed license.txt
 	license string
